@@ -98,16 +98,19 @@ def one_corpus(ctx, wrappers, case0, wd, n_cfg, n_rep, label, timeout=120):
     found = False
     ntok = M.token_count(case0["corpus"])
     for kind, case, inter in variants(case0):
-        cfgs = M.fixed_configs()
-        # the smallest accepted -S for the tiny-block options, and a little above it
-        smin = M.smallest_memory(wrappers, case, wd, M.TINY, timeout=timeout)
+        big = label == "big"
+        cfgs = M.fixed_configs()[:3] if big else M.fixed_configs()
+        # the smallest accepted -S for the tiny-block options, and a little above it (not for the large corpora:
+        # a run with two records per block takes minutes there; they get 16K..1G, still 10..1000x less than the data)
+        smin = None if big else M.smallest_memory(wrappers, case, wd, M.TINY, timeout=timeout)
         if smin is not None:
             ctx.hist("smallest_S", "%d" % (smin // 64 * 64))
             cfgs.append(dict(mem="%db" % smin, opts=list(M.TINY), tkind="dir", sched="plain"))
             cfgs.append(dict(mem="%db" % (smin + ctx.rng.randrange(1, 400)), opts=list(M.TINY) + ["--block_count", "3"],
                              tkind="prefix", sched="plain"))
         while len(cfgs) < n_cfg:
-            cfgs.append(M.gen_config(ctx.rng, case["order"]))
+            cfgs.append(M.gen_config(ctx.rng, case["order"],
+                                     force=ctx.rng.choice(["16K", "64K", "100K", "256K", "1M", "7M", "64M"]) if big else None))
         ctx.rng.shuffle(cfgs)
         # plain repetitions of one accepted-looking configuration
         rep_of = ctx.rng.choice([c for c in cfgs if M.mem_bytes(c["mem"]) <= (64 << 10)] or cfgs)
